@@ -1080,22 +1080,8 @@ fn pad_integral(
         Err(_) => 0,
     };
 
-    if pad != 0 && f.sign_aware_zero_pad() {
-        for _ in 0..pad {
-            f.write_char('0')?;
-        }
-        pad = 0;
-    }
-
-    if f.sign_plus() {
-        f.write_char('+')?;
-    }
-    if f.alternate() {
-        f.write_str(prefix)?;
-    }
-
     let fill_char = f.fill();
-    if pad != 0 {
+    if pad != 0 && !f.sign_aware_zero_pad() {
         let pad_front = match f.align() {
             Some(fmt::Alignment::Left) => 0,
             Some(fmt::Alignment::Center) => pad / 2,
@@ -1105,6 +1091,20 @@ fn pad_integral(
         for _ in 0..pad_front {
             f.write_char(fill_char)?;
         }
+    }
+
+    if f.sign_plus() {
+        f.write_char('+')?;
+    }
+    if f.alternate() {
+        f.write_str(prefix)?;
+    }
+
+    if pad != 0 && f.sign_aware_zero_pad() {
+        for _ in 0..pad {
+            f.write_char('0')?;
+        }
+        pad = 0;
     }
 
     write_digits(f)?;
